@@ -6,11 +6,12 @@ import S3V.Base.Bytes
 party code; the model starts at the parsed JSON value (`Json`, objects as *ordered* member lists in
 which a name may repeat, exactly what a `MapAccess` hands to a visitor) and mirrors
 
-* the derived `Serialize` of `Policy`, `Statement`, … and the derived `Deserialize` of `Version`,
-  `Effect`, `ConditionRule`, `ConditionKeyValues` (serde_derive 1.0.219: `rename_all = "PascalCase"`,
+* the derived `Serialize` of `Policy`, `Statement`, `Version`, `Effect`, … and the derived `Deserialize`
+  of `ConditionRule`, `ConditionKeyValues` (serde_derive 1.0.219: `rename_all = "PascalCase"`,
   `rename`, `flatten`, no `skip_serializing_if`, no `deny_unknown_fields`), and
-* the hand-written impls: `Deserialize for Policy`, `Deserialize for Statement`, and both directions of
-  `Principal`, `OneOrMore<T>`, `WildcardOneOrMore<T>`.
+* the hand-written impls: `Deserialize for Policy`, `Deserialize for Statement`, `Deserialize for
+  Version` / `Effect` (`deserialize_name`), and both directions of `Principal`, `OneOrMore<T>`,
+  `WildcardOneOrMore<T>`.
 
 What the code does, and the model therefore does (each item checked on the real code by the
 correspondence run, see `harness/src/bin/h_policy.rs`):
@@ -30,8 +31,10 @@ correspondence run, see `harness/src/bin/h_policy.rs`):
   error (the same name again, or the other name of the pair); the value of each member is read with the
   reader of its type and *every* error is passed on (in particular a malformed `Principal` value);
   `Effect`, an action block and a resource block must be there at the end.
-* unit-variant enums (`Version`, `Effect`) read by serde_json's `deserialize_enum` accept the string
-  `"Allow"` and also the one-member object `{"Allow": null}`.
+* `Version` and `Effect` are read by `deserialize_name`: `deserialize_str` with a visitor that has
+  `visit_str` only, so the string `"Allow"` is read and everything else is `invalid_type` — in
+  particular the one-member object `{"Allow": null}`, which serde_json's `deserialize_enum` used to
+  take for the derived readers of these unit-variant enums.
 * `IndexMap` deserialisation is `insert` per member in order: a repeated name keeps the position of
   its first occurrence and the value of its last.
 
@@ -247,11 +250,10 @@ def optString : Json → Option (Option Bytes)
   | .str s => some (some s)
   | _ => none
 
-/-- serde_json `deserialize_enum` for an enum of unit variants: a string, or an object with exactly
-    one member whose value is `null` -/
-def unitEnum {α : Type} (variant : Bytes → Option α) : Json → Option α
+/-- `deserialize_name` (the reader of `Version` and of `Effect`): a string that names a variant; no
+    other JSON value (`deserialize_str`, visitor with `visit_str` only) -/
+def nameEnum {α : Type} (variant : Bytes → Option α) : Json → Option α
   | .str s => variant s
-  | .obj [(k, .null)] => variant k
   | _ => none
 
 def versionOfName (s : Bytes) : Option Version :=
@@ -263,7 +265,7 @@ def effectOfName (s : Bytes) : Option Effect :=
 /-- `Option<Version>::deserialize` -/
 def optVersion : Json → Option (Option Version)
   | .null => some none
-  | j => (unitEnum versionOfName j).map some
+  | j => (nameEnum versionOfName j).map some
 
 /-- `impl Deserialize for OneOrMore<String>`: `visit_str` → `One`, `visit_seq` → `More`; `visit_map`
     hands the map to `String::deserialize`, which fails; no other `visit_*` exists -/
@@ -334,7 +336,7 @@ def stmtField (acc : StAcc) (kv : Bytes × Json) : Option StAcc :=
     else (principalOfJson kv.2).map fun p => { acc with principal := some (.notPrincipal p) }
   else if kv.1 = kEffect then
     if acc.effect.isSome then none
-    else (unitEnum effectOfName kv.2).map fun v => { acc with effect := some v }
+    else (nameEnum effectOfName kv.2).map fun v => { acc with effect := some v }
   else if kv.1 = kAction then
     if acc.action.isSome then none
     else (woomOfJson kv.2).map fun w => { acc with action := some (.action w) }
